@@ -44,7 +44,7 @@ Proof. intros H k'. rewrite !assoc_assoc_set, (H k'). destruct (String.eqb k' k)
 Definition frame_match (sc:scope) (f:frame) : Prop :=
   vars_match (sc_vars sc) (f_vars f) /\ f_ns f = sc_ns sc /\ f_bubble f = true.
 Definition Match (s:sstate) (r:rt) (fs:list frame) : Prop :=
-  Forall2 frame_match (st_scopes s) fs /\ r_nss r = mnss (st_nss s).
+  Forall2 frame_match (st_scopes s) fs /\ world r = (mnss (st_nss s), st_trace s).
 
 (* every field but the variables (and, for the running frame, the position) is untouched *)
 Definition kept (f f':frame) : Prop := set_vars f (f_vars f') = f'.
@@ -95,7 +95,7 @@ Lemma env_ok_of s r f rest : Match s r (f :: rest) -> env_ok (loc_of s) (glob_of
 Proof.
   intros [F N]. split.
   - intros k w H. rewrite (lookup_match k _ _ F). unfold loc_of in H. rewrite H. reflexivity.
-  - intros k w H. unfold glob_of in H. rewrite N, assoc_mnss.
+  - intros k w H. unfold glob_of in H. rewrite (world_nss _ _ _ N), assoc_mnss.
     inversion F as [|sc f0 scs fs (V & NS & B) F' E1 E2]; subst. unfold cur_ns_of in H. try rewrite <- E1 in H. rewrite NS.
     destruct (assoc (sc_ns sc) (st_nss s)) as [m|]; [|discriminate]. cbn [option_map]. rewrite assoc_mvars, H. reflexivity.
 Qed.
@@ -207,7 +207,7 @@ Proof.
     destruct (proj1 (pure_sim _ _) e v HE r c f rest pre post G EF EC EP B (env_ok_of s r f rest M)) as [S1 NV].
     eexists _, _, _, rest. split; [exact S1|]. split; [|split; [apply moved_set_pos|split; [reflexivity|apply kept_all_refl]]].
     split; [apply good_adv; exact G|]. split; [reflexivity|]. split.
-    { destruct M as [F N]. split; [|rewrite nss_upd_cur; exact N].
+    { destruct M as [F N]. split; [|rewrite world_upd_cur; exact N].
       inversion F as [|sc f0 scs fs FM F' E1 E2]; subst. try rewrite <- E1. constructor; [exact FM|exact F']. }
     split; [exact LB|]. exists (cv v :: top). split; [cbn; rewrite EV; reflexivity|].
     split; [reflexivity|]. split; [intros ->; apply NV; reflexivity|exact UT].
@@ -243,14 +243,14 @@ Proof.
         inversion M' as [|sc' fb' scs'' rb' FM' F'' Ea' Eb']; subst.
         eexists _, _, fb, rb. split; [exact S3|]. split.
         { split; [exact G2|]. split; [reflexivity|]. split.
-          { split; [cbn; constructor; assumption|]. rewrite nss_upd_cur. exact NS. }
+          { split; [cbn; constructor; assumption|]. rewrite world_upd_cur. exact NS. }
           split; [rewrite <- K1; exact LB|]. exists top. split; [exact EV|exact RR]. }
         split; [unfold moved; rewrite <- K1; destruct f; reflexivity|].
         split; [rewrite <- K1; cbn; unfold k; rewrite app_length; cbn; lia|exact K2].
       * unfold assign_local_var in *. rewrite A2 in *. rewrite A1. unfold bind_here. try rewrite <- E1.
         eexists _, _, _, rest. split; [exact S3|]. split.
         { split; [exact G2|]. split; [reflexivity|]. split.
-          { split; [|rewrite nss_upd_cur; exact NS]. cbn. constructor; [|exact F'].
+          { split; [|rewrite world_upd_cur; exact NS]. cbn. constructor; [|exact F'].
             destruct FM as (V & N0 & B0). split; [cbn; apply vars_match_set; exact V|split; [exact N0|exact B0]]. }
           split; [exact LB|]. exists top. split; [exact EV|exact RR]. }
         split; [unfold moved; destruct f; reflexivity|].
@@ -266,7 +266,9 @@ Proof.
       eexists _, _, _, rest. split; [exact S3|]. split.
       { split; [exact G2|]. split; [reflexivity|]. split.
         { split; [cbn; rewrite <- E1; constructor; [exact FM|exact F']|].
-          rewrite nss_upd_cur. unfold ns_set. rewrite nss_set_nss. unfold r1. rewrite nss_upd_cur, NS.
+          rewrite world_upd_cur. unfold world. f_equal;
+            [|exact (world_marks _ _ _ (eq_trans (world_upd_cur r c1) NS))].
+          unfold ns_set. rewrite nss_set_nss. unfold r1. rewrite nss_upd_cur, (world_nss _ _ _ NS).
           destruct FM as (V & N0 & B0). unfold cur_ns_of. try rewrite <- E1. rewrite N0. cbn [rns_set st_nss].
           rewrite assoc_mnss. destruct (assoc (sc_ns sc) (st_nss s)) as [m|]; cbn [option_map].
           - rewrite assoc_set_mvars, assoc_set_mnss. reflexivity.
@@ -297,7 +299,7 @@ Proof.
     unfold bind_here. try rewrite <- E1.
     eexists _, _, _, rest. split; [exact S3|]. split.
     { split; [exact G2|]. split; [reflexivity|]. split.
-      { split; [|rewrite nss_upd_cur; exact NS]. cbn. constructor; [|exact F'].
+      { split; [|rewrite world_upd_cur; exact NS]. cbn. constructor; [|exact F'].
         destruct FM as (V & N0 & B0). split; [cbn; apply vars_match_set; exact V|split; [exact N0|exact B0]]. }
       split; [exact LB|]. exists top. split; [exact EV|exact RR]. }
     split; [unfold moved; destruct f; reflexivity|].
@@ -318,7 +320,7 @@ Proof.
   destruct (run_one r c f rest IEnd _ G EF N EX) as [S1 G1].
   { destruct G as (_ & _ & _ & _ & _ & _ & SU). exact SU. }
   exists (upd_cur r (set_values c1 below)), (set_values c1 below). split; [exact S1|]. split; [|left; reflexivity]. split; [exact G1|]. split; [reflexivity|]. split.
-  { destruct M as [F NS]. split; [|rewrite nss_upd_cur; exact NS]. inversion F as [|sc f0 scs fs FM F' E1 E2]; subst. try rewrite <- E1. constructor; assumption. }
+  { destruct M as [F NS]. split; [|rewrite world_upd_cur; exact NS]. inversion F as [|sc f0 scs fs FM F' E1 E2]; subst. try rewrite <- E1. constructor; assumption. }
   split; [exact LB|]. exists []. split; reflexivity.
 Qed.
 
